@@ -340,9 +340,15 @@ impl Compiler {
             return self.compile_accessor_property(obj, prop);
         }
 
-        // Compile the value for regular properties
+        // Compile the value for regular properties; an anonymous function, arrow or class
+        // takes the property key as its name (`{ go() {} }.go.name === "go"`)
+        let inferred_name = match &prop.key {
+            ObjectPropertyKey::Identifier(id) => Some(id.name.cheap_clone()),
+            ObjectPropertyKey::String(s) => Some(s.value.cheap_clone()),
+            _ => None,
+        };
         let value_reg = self.builder.alloc_register()?;
-        self.compile_expression(&prop.value, value_reg)?;
+        self.compile_expression_with_inferred_name(&prop.value, value_reg, inferred_name)?;
 
         // Set the property based on key type
         match &prop.key {
